@@ -205,6 +205,16 @@ static int run_fn() {
             SDAI_Application_instance * o = sf.CreateSubSuperInstance( in, 1, e );
             r << "ok obj=" << ( ( o && o != ENTITY_NULL ) ? 1 : 0 );
             if( o && o != ENTITY_NULL ) delete o;
+        } else if( fn == "subsuperb" ) {
+            // CreateSubSuperInstance on the bytes of an external mapping (the stream is positioned at its "(")
+            std::istringstream in( bytes );
+            InstMgr im; SF sf( reg, im );
+            std::istringstream hdr( "HEADER;FILE_DESCRIPTION((''),'2;1');FILE_NAME('','',(''),(''),'','','');FILE_SCHEMA(('C05A'));ENDSEC;" );
+            sf.ReadHeader( hdr );
+            ErrorDescriptor e;
+            SDAI_Application_instance * o = sf.CreateSubSuperInstance( in, 1, e );
+            if( o && o != ENTITY_NULL ) delete o;
+            r << "ok " << obs( in );
         } else if( fn == "readdata1" || fn == "readdata1w" ) {
             // pass 1 of the DATA section (the stream is positioned after "DATA;")
             std::istringstream in( bytes );
